@@ -26,6 +26,11 @@ def dirty_heap(nbytes, pattern):
     del blocks
 
 
+import signal  # noqa: E402
+import time  # noqa: E402
+ALARM = int(os.environ.get("VERIF_CALL_ALARM", "0"))
+
+
 def main():
     for line in sys.stdin:
         line = line.strip()
@@ -33,21 +38,30 @@ def main():
             continue
         req = json.loads(line)
         print("BEGIN %s" % req["id"], flush=True)
+        if ALARM:
+            signal.alarm(ALARM)     # default action: SIGALRM kills a worker stuck inside native code
         fn = R.resolve(mh, req["fn"])
         lays = req.get("layouts") or ["C"] * len(req["args"])
         args = [R.build_arg(a, l, fill=1) for a, l in zip(req["args"], lays)]
+        args = [R.build_special(a) for a in args]
         kl = req.get("klayouts") or {}
-        kwargs = {k: R.build_arg(v, kl.get(k, "C"), fill=1) for k, v in req["kwargs"].items()}
+        kwargs = {k: R.build_special(R.build_arg(v, kl.get(k, "C"), fill=1)) for k, v in req["kwargs"].items()}
         keep = [a.copy() if isinstance(a, np.ndarray) else None for a in args]
         if req.get("predirty") is not None:
             n = sum(a.nbytes for a in args if isinstance(a, np.ndarray)) or 64
             dirty_heap(n, req["predirty"])
         out = {"id": req["id"], "res": None, "exc": None}
+        t0 = time.time()
         try:
             res = fn(*args, **kwargs)
-            out["res"] = R.canon(res)
+            out["res"] = {"repr": "not recorded"} if os.environ.get("VERIF_NO_CANON") else R.canon(res)
         except (ValueError, TypeError, RuntimeError, NotImplementedError, MemoryError, IndexError, KeyError,
                 OverflowError, ZeroDivisionError, AttributeError, AssertionError, FloatingPointError) as e:
+            out["exc"] = type(e).__name__
+            out["msg"] = str(e)[:200]
+        except Exception as e:
+            if not os.environ.get("VERIF_ANY_EXC"):
+                raise
             out["exc"] = type(e).__name__
             out["msg"] = str(e)[:200]
         unchanged = True
@@ -55,7 +69,10 @@ def main():
             if k is not None and not (a.shape == k.shape and np.array_equal(a, k, equal_nan=(a.dtype.kind == "f"))):
                 unchanged = False
         out["args_unchanged"] = unchanged
-        print("RES " + json.dumps(out), flush=True)
+        out["elapsed"] = round(time.time() - t0, 3)
+        if ALARM:
+            signal.alarm(0)
+        print("RES " + json.dumps(out, default=repr), flush=True)
 
 
 if __name__ == "__main__":
